@@ -250,14 +250,22 @@ class Profiles:
         **very** slow instead.
         """
         # add macros
+        reset = False
         for profile, properties, macros in profiles:
             if macros:
+                if self._profileNames and set(macros).intersection(self._usedMacros):
+                    # known macros change: the profiles which are registered
+                    # already have to be expanded again (as addProfile does)
+                    reset = True
                 self._usedMacros.update(macros)
                 self._rawProfiles[profile] = {'macros': macros.copy()}
 
         # only add new properties
         for profile, properties, macros in profiles:
             self.addProfile(profile, properties.copy(), None)
+
+        if reset:
+            self._resetProperties()
 
     def addProfile(self, profile, properties, macros=None):
         """Add a new profile with name `profile` (e.g. 'CSS level 2')
@@ -331,6 +339,9 @@ class Profiles:
             self._profilesProperties.clear()
             self._rawProfiles.clear()
             del self._profileNames[:]
+            # (no profile, no macros of profiles)
+            self._usedMacros = Profiles._TOKEN_MACROS.copy()
+            self._usedMacros.update(Profiles._MACROS.copy())
         else:
             reset = False
 
